@@ -59,8 +59,8 @@ def case_to_coq(c):
                                                  C.cq_str(s["ans"])) for s in r["steps"]])
         runs.append("(%s%%nat, %s)" % (C.cq_list([str(i) for i in r["order"]]), steps))
     pkeys = C.cq_list(["(%s, %s)" % (C.cq_str(p[0]), C.cq_str(p[1])) for p in c["pkeys"]])
-    return "c19_case %d %s %s %s\n    %s\n    %s" % (
-        c["id"], C.cq_bool(c["enabled"]), cq_strs(c["wkeys"]), pkeys,
+    return "c19_case %d %s %s %s %s\n    %s\n    %s" % (
+        c["id"], C.cq_bool(c.get("fx", False)), C.cq_bool(c["enabled"]), cq_strs(c["wkeys"]), pkeys,
         C.cq_list([cq_event(op) for op in c["hist"]]), C.cq_list(runs))
 
 
@@ -159,6 +159,8 @@ TRUSTED = [
     "depend on the order is argued in Model.v (disjoint groups, read-only UserSigs during verifyPolicies) and exercised by the "
     "runtime's random order on every run, the winner being independent of the order is proved (sig_sort_perm_invariant)",
     "projection of error/problem message prose to classes in the harness (string prefixes)",
+    "the model's variant flag fx (F21 repaired or not) is set from a probe of the real isReqSatisfiedByUserSig through "
+    "AddOrUpdateUserSig/AddOrUpdatePolicy/GetAppResource on every run; S never looks at it",
 ]
 
 
@@ -171,6 +173,11 @@ def check(run):
     if rc != 0:
         raise C.TieBroken("c19 harness failed rc=%d: %s" % (rc, log[-1500:]))
     cases = C.read_jsonl(out)
+    variants = sorted({bool(c.get("fx")) for c in cases})
+    run.cov["code_variant"] = ("fixes/F21.diff applied (fx=true): C19_flags_are_spec_with_fix applies" if variants == [True] else
+                               "unpatched isReqSatisfiedByUserSig (fx=false): C19_flags_are_spec under f21_free, C19_revtime_refuted"
+                               if variants == [False] else "inconsistent probe results %s" % variants)
+    run.add_obligation(len(variants) == 1, "code variant probe is consistent over the run", str(variants))
     shard = 150
     for k in range(0, len(cases), shard):
         part = cases[k:k + shard]
@@ -222,8 +229,8 @@ def traces(cases):
         pkeys = C.cq_list(["(%s, %s)" % (C.cq_str(p[0]), C.cq_str(p[1])) for p in c["pkeys"]])
         for i, r in enumerate(c["obs"]["runs"]):
             order = C.cq_list([str(j) for j in r["order"]]) + "%nat"
-            body += "Definition xt_%d_%d := Eval vm_compute in x_trace (init %s) %s %s (pick %s %s).\nPrint xt_%d_%d.\n" % (
-                c["id"], i, C.cq_bool(c["enabled"]), cq_strs(c["wkeys"]), pkeys, evs, order, c["id"], i)
+            body += "Definition xt_%d_%d := Eval vm_compute in x_trace %s (init %s) %s %s (pick %s %s).\nPrint xt_%d_%d.\n" % (
+                c["id"], i, C.cq_bool(c.get("fx", False)), C.cq_bool(c["enabled"]), cq_strs(c["wkeys"]), pkeys, evs, order, c["id"], i)
             body += "Definition st_%d_%d := Eval vm_compute in s_trace %s objs0 %s %s (pick %s %s).\nPrint st_%d_%d.\n" % (
                 c["id"], i, C.cq_bool(c["enabled"]), cq_strs(c["wkeys"]), pkeys, evs, order, c["id"], i)
             names.append((c["id"], i))
